@@ -217,8 +217,10 @@ def upsert_routes(app, routes, routes_path, route, primary_key):
         return
 
     with open(routes_path, "a") as f:
+        # The file may not end in a newline (the first write above does not): start on a fresh line
         f.write(
-            "\n\n".join(
+            "\n\n"
+            + "\n\n".join(
                 map(
                     to_code,
                     map(
